@@ -481,7 +481,7 @@ RECURSIVE Rep(_, _)
 Rep(ts, n) == IF n = 0 THEN <<>> ELSE ts \o Rep(ts, n - 1)
 KV(k, v) == [k |-> k, v |-> v]
 StressKinds == {"parens", "calls", "index", "signs", "joins", "open", "close", "brack", "pipes", "ops", "chain",
-                "in", "commas", "semis", "lets", "mixed", "errtok", "inopen", "joinopen"}
+                "in", "commas", "semis", "lets", "mixed", "errtok", "inopen", "joinopen", "crossparen", "crossbrack", "crosscall"}
 StressDepths == IF Bound <= 1 THEN {1, 2, 3, 8} ELSE {1, 3, 17, 120, Bound}
 StressChoices(c) == CASE Len(c) = 0 -> StressKinds [] Len(c) = 1 -> StressDepths [] OTHER -> {}
 Head2 == <<KV("Identifier", "T"), KV("Pipe", ""), KV("Identifier", "where")>>
@@ -507,6 +507,10 @@ StressToks(c) ==
     [] c[1] = "lets" -> Rep(<<KV("Identifier", "let"), KV("Identifier", "v"), KV("Assign", ""), KV("Identifier", "v"), KV("Semi", "")>>, n)
                         \o <<KV("Identifier", "T")>>
     [] c[1] = "mixed" -> Head2 \o Rep(<<KV("LParen", ""), KV("LBracket", "")>>, n) \o <<A>> \o Rep(<<KV("RParen", ""), KV("RBracket", "")>>, n)
+    [] c[1] = "crossparen" -> Head2 \o Rep(<<KV("LParen", "")>>, n) \o <<A>> \o Rep(<<KV("RBracket", "")>>, n)
+    [] c[1] = "crossbrack" -> Head2 \o <<A>> \o Rep(<<KV("LBracket", "")>>, n) \o <<KV("Number", "1")>> \o Rep(<<KV("RParen", "")>>, n)
+    [] c[1] = "crosscall" -> Head2 \o Rep(<<KV("Identifier", "f"), KV("LParen", ""), A, KV("LBracket", "")>>, n) \o <<KV("Number", "1")>>
+                             \o Rep(<<KV("RParen", ""), KV("RBracket", "")>>, n)
     [] c[1] = "errtok" -> Head2 \o Rep(<<KV("Raw", "!"), KV("Raw", "'x")>>, n)
     [] c[1] = "inopen" -> Head2 \o Rep(<<A, KV("In", "")>>, n)
     [] c[1] = "joinopen" -> <<KV("Identifier", "T")>> \o Rep(<<KV("Pipe", ""), KV("Identifier", "join"), KV("LParen", ""), KV("Identifier", "B")>>, n)
@@ -517,7 +521,7 @@ StressToks(c) ==
 (* ch = <<setup, value shape, use, position>>                              *)
 
 ScopeSetups == {"single", "chain", "redef", "overparam", "paramonly", "paramchain", "after", "unused", "shadowlater", "collide"}
-ValueShapes == {"lit", "neg", "bin", "call", "ref", "negref", "paren", "str", "const"}
+ValueShapes == {"lit", "neg", "bin", "call", "ref", "negref", "paren", "str", "const", "notcall", "isnullcall", "strcatcall", "iffcall", "index"}
 ShapesFor(setup) ==
   CASE setup \in {"chain", "shadowlater", "paramchain"} -> ValueShapes
     [] setup = "paramonly" -> {"lit"}
@@ -526,6 +530,10 @@ LetValue(shape) ==
   CASE shape = "lit" -> Num("3") [] shape = "neg" -> Un("Minus", Num("5")) [] shape = "bin" -> Bin("Plus", Num("1"), Num("2"))
     [] shape = "call" -> Call("f", <<Num("1")>>) [] shape = "ref" -> Col("m") [] shape = "negref" -> Un("Minus", Col("m"))
     [] shape = "paren" -> Paren(Bin("Minus", Num("1"), Num("2"))) [] shape = "str" -> Str("s") [] shape = "const" -> Col("true")
+    [] shape = "notcall" -> Call("not", <<Col("true")>>) [] shape = "isnullcall" -> Call("isnull", <<Num("1")>>)
+    [] shape = "strcatcall" -> Call("strcat", <<Str("a"), Str("b")>>)
+    [] shape = "iffcall" -> Call("iff", <<Col("true"), Num("1"), Num("2")>>)
+    [] shape = "index" -> Index(Call("f", <<Num("1")>>), Num("2"))
 \* items before the query, items after it, parameters (name -> snippet)
 SetupBefore(setup, shape) ==
   LET V == LetValue(shape) IN
